@@ -268,8 +268,7 @@ def cmpStrLoop (op : CmpOp) (ev : Arg → M Val) (s0 : Bytes) : List Arg → M V
   | [] => pure (.bool true)
   | a :: r => do
     let v ← ev a
-    let s := match v with | .str s => s | _ => []     -- `s, _ := v.(string)`
-    if op.sHolds s0 s then cmpStrLoop op ev s r else pure (.bool false)
+    if op.sHolds s0 v.strOrEmpty then cmpStrLoop op ev v.strOrEmpty r else pure (.bool false)
 
 /-- the value the type switch of `lt`… looks at: the evaluated first argument in the documented
 behaviour; in the code the argument itself (a literal number or string, anything else is an error) -/
@@ -570,12 +569,12 @@ def evalFn (env : Env) (ev : Arg → Val → M Val) (root at_ : Val) (f : Bytes)
   else if f = b!"list" then fnList e args
   else if f = b!"nth" then fnNth e args
   else if f = b!"size" then fnSize e args
-  else if f = b!"array?" then fnPred (fun v => match v with | .aref _ => true | _ => false) e args
-  else if f = b!"bool?" then fnPred (fun v => match v with | .bool _ => true | _ => false) e args
-  else if f = b!"map?" then fnPred (fun v => match v with | .mref _ => true | _ => false) e args
-  else if f = b!"nil?" || f = b!"null?" then fnPred (fun v => v = .null) e args
-  else if f = b!"num?" then fnPred (fun v => match v with | .int _ | .flt _ => true | _ => false) e args
-  else if f = b!"string?" then fnPred (fun v => match v with | .str _ => true | _ => false) e args
+  else if f = b!"array?" then fnPred Val.isArr e args
+  else if f = b!"bool?" then fnPred Val.isBool e args
+  else if f = b!"map?" then fnPred Val.isMap e args
+  else if f = b!"nil?" || f = b!"null?" then fnPred Val.isNull e args
+  else if f = b!"num?" then fnPred Val.isNum e args
+  else if f = b!"string?" then fnPred Val.isStr e args
   else stop .unmodelled
 
 /-- `evalArg`: fuel bounds the nesting depth of calls -/
